@@ -177,6 +177,11 @@ def main():
     a, rep, replay = parse(PROP)
     rep.assumptions = ["scheduler invocations are counted by wrapping dask.local.get_sync / dask.threaded.get (one call per dask.compute)",
                        "schedules are enumerated (kind x workers), not interleaving-explored", "data with a 10x gap after the retained modes; tolerance 1e-6"]
+    if replay is not None and replay["scenario"].get("kind") == "lifecycle_path":
+        from .. import liferun as _lr
+        _lr.replay_path(rep, replay["scenario"], TAGS)
+        rep.extra["distinct_nontrivial"] = 2
+        return common.finish(rep)
     if replay is not None and replay["scenario"].get("kind") == "scenario":
         out = evaluate(replay["scenario"]["index"], replay["scenario"]["scenario"])
         for prop, clause, msg in out["found"]:
